@@ -127,8 +127,9 @@ def prepare_olds(clauses, env):
     for oc in oldcodes:
         try:
             v = eval(oc, env)
-            if not isinstance(v, (str, int, bool, type(None))):
-                v = copy.deepcopy(v)
+            # objects are references (identity matters: Element.__eq__ is `is`); containers are snapshotted shallowly
+            if isinstance(v, (list, dict, set)) or type(v).__name__ == "deque":
+                v = copy.copy(v)
         except Exception as err:  # noqa: BLE001
             v = ("__old_error__", repr(err))
         olds.append(v)
